@@ -496,11 +496,27 @@ mod routing {
         if m.parameters() != d.names.as_slice() {
             return Err(format!("parameters() = {:?}, model order is {:?}", m.parameters(), d.names));
         }
-        let vals: Vec<T> = (0..p).map(|k| T::f(value_of(k))).collect();
-        m.set_params(DVector::from_vec(vals.clone())).map_err(|e| format!("set_params failed: {:?}", e))?;
+        // the freshly built model holds the initial parameters
+        let init: Vec<T> = (0..p).map(|k| T::f(1.0 + k as f64)).collect();
+        verify(&m, d, &init).map_err(|e| format!("freshly built model: {}", e))?;
+        // a short history of parameter vectors: distinct, all +0, all -0 (numerically equal, different bits), a revisit, a repeat, one entry changed
+        let base: Vec<f64> = (0..p).map(value_of).collect();
+        let mut last = base.clone();
+        last[p - 1] += 0.5;
+        let history: Vec<Vec<f64>> = vec![base.clone(), vec![0.0; p], vec![-0.0; p], base.clone(), base.clone(), last];
+        for (h, v) in history.iter().enumerate() {
+            let vals: Vec<T> = v.iter().map(|x| T::f(*x)).collect();
+            m.set_params(DVector::from_vec(vals.clone())).map_err(|e| format!("set_params #{} failed: {:?}", h, e))?;
+            verify(&m, d, &vals).map_err(|e| format!("after set_params #{} of the history {:?}: {}", h, history, e))?;
+        }
+        Ok(())
+    }
+
+    fn verify<T: Sc>(m: &SeparableModel<T>, d: &ModelDesc, vals: &[T]) -> Result<(), String> {
+        let p = d.names.len();
         let got = m.params();
         if got.len() != p || (0..p).any(|k| got[k].bits() != vals[k].bits()) {
-            return Err(format!("params() = {:?} after set_params({:?})", got.as_slice(), vals));
+            return Err(format!("params() = {:?}, the parameters in effect are {:?}", got.as_slice(), vals));
         }
         let x = xvec::<T>();
         let phi = m.eval().map_err(|e| format!("eval failed: {:?}", e))?;
@@ -794,6 +810,8 @@ mod misuse {
             Op::D(1),
             Op::Set(0),
             Op::Set(1),
+            Op::Set(2),
+            Op::Set(3),
             Op::SetBad(0),
             Op::SetBad(1),
             Op::SetBad(3),
@@ -808,7 +826,7 @@ mod misuse {
             Op::Heal,
         ]
     }
-    pub const ALPHAS: [[f64; 2]; 2] = [[3.0, 7.0], [-1.5, 0.25]];
+    pub const ALPHAS: [[f64; 2]; 4] = [[3.0, 7.0], [-1.5, 0.25], [0.0, 7.0], [-0.0, 7.0]];
 
     pub fn op_json(o: &Op) -> Value {
         match o {
@@ -832,7 +850,9 @@ mod misuse {
         }
         if let Some(a) = v.get("set_params") {
             let a0 = a[0].as_f64().unwrap();
-            return Op::Set(if a0 == ALPHAS[0][0] { 0 } else { 1 });
+            let b0 = a[0].as_f64().unwrap();
+            let _ = a0;
+            return Op::Set(ALPHAS.iter().position(|x| x[0].to_bits() == b0.to_bits() || (x[0] == b0 && b0 != 0.0)).unwrap_or(0));
         }
         if let Some(l) = v.get("set_params_len") {
             return Op::SetBad(l.as_u64().unwrap() as usize);
